@@ -75,6 +75,9 @@ func (self *fieldMap) SetIfNotExist(f fieldID, ft FieldMaskType, black bool) (s 
 }
 
 func (self *fieldMap) Get(f fieldID) (ret *FieldMask) {
+	if self == nil {
+		return nil
+	}
 	if f >= 0 && f <= _MaxFieldIDHead {
 		ret = self.head[f]
 	} else {
